@@ -200,6 +200,8 @@ func run(w *vkit.World, e execution) outcome {
 		claims := map[string]any{}
 		_ = json.Unmarshal(raw, &claims)
 
+		lastJTI, _ = claims["jti"].(string)
+
 		ttl, _ := claims["exp"].(float64)
 		iat, _ := claims["iat"].(float64)
 		claims["exp-iat"] = ttl - iat
@@ -229,6 +231,9 @@ func callsTo(prefix string) int {
 
 const repetitions = 8
 
+// lastJTI is the id of the token the last execution handed to the upstream side (if it issued one)
+var lastJTI string
+
 func checkCase(t *rapid.T, c caseSpec, excl map[string]bool) {
 	remote.Set(remoteFn)
 
@@ -240,8 +245,14 @@ func checkCase(t *rapid.T, c caseSpec, excl map[string]bool) {
 
 	var firstA outcome
 
+	tokens := map[string]bool{}
+
 	for i := 0; i < repetitions; i++ {
+		lastJTI = ""
+
 		o := run(wOn, c.A)
+		tokens[lastJTI] = true
+
 		if i == 0 {
 			firstA = o
 		} else if o != firstA {
@@ -278,6 +289,12 @@ func checkCase(t *rapid.T, c caseSpec, excl map[string]bool) {
 
 	if onB != offB {
 		t.Fatalf("enabling the cache changed a decision: execution B yields %+v with the cache on (after A) but %+v with the cache off\n%s", onB, offB, c)
+	}
+
+	// effectiveness: identical requests within the TTL are handed the token issued for the first of them
+	if c.Family == "jwt_finalizer" && firstA.Status == 200 && len(tokens) != 1 {
+		t.Fatalf("%d identical executions were handed %d different tokens (expected the one issued first: the cache key must not depend on incidental ordering)\n%s",
+			repetitions, len(tokens), c)
 	}
 
 	// effectiveness: identical requests within the TTL reach the remote system once
@@ -637,16 +654,45 @@ func genClientCredentialsCase(t *rapid.T) caseSpec {
 }
 
 func genJWTFinalizerCase(t *rapid.T) caseSpec {
+	// contextualizers without cache run before the finalizer: what they add to the outputs is part of what the token is
+	// issued for (the claims refer to it), and with several of them the outputs are a map with several entries
+	npre := rapid.IntRange(0, 5).Draw(t, "outputsBeforeFinalizer")
+	claims := `{"role":"{{ .Subject.Attributes.role }}","tenant":"std"`
+
+	var (
+		ctx  []config.Mechanism
+		pres []config.MechanismConfig
+	)
+
+	for i := 0; i < npre; i++ {
+		id := fmt.Sprintf("pre%d", i)
+		ctx = append(ctx, config.Mechanism{ID: id, Type: "generic", Config: config.MechanismConfig{
+			"endpoint": map[string]any{"url": remote.URL() + "/pre/" + id}, "forward_headers": []any{"X-Pre"}, "cache_ttl": "0s",
+		}})
+		pres = append(pres, config.MechanismConfig{"contextualizer": id})
+		claims += fmt.Sprintf(`,"%s":"{{ .Outputs.%s.echo }}"`, id, id)
+	}
+
+	claims += "}"
+
 	pc := config.MechanismConfig{
 		"signer": map[string]any{"name": "verif", "key_store": map[string]any{"path": vkit.KeysDir() + "/ecp256.key.pem"}},
 		"ttl":    "5m",
-		"claims": `{"role":"{{ .Subject.Attributes.role }}","tenant":"std"}`,
+		"claims": claims,
 	}
-	c := caseSpec{Family: "jwt_finalizer", RemotePath: "/none", NT: true, Authn: []config.Mechanism{anon()},
+	c := caseSpec{Family: "jwt_finalizer", RemotePath: "/none", NT: true, Authn: []config.Mechanism{anon()}, Ctx: ctx,
 		Final: []config.Mechanism{{ID: "jwt", Type: "jwt", Config: pc}}}
 	refA, refB := config.MechanismConfig{"finalizer": "jwt"}, config.MechanismConfig{"finalizer": "jwt"}
 	subA, subB := "alice", "alice"
-	c.Kind = rapid.SampledFrom([]string{"equal", "subject", "claims", "ttl"}).Draw(t, "pairKind")
+
+	var hdrB []vkit.HeaderKV
+
+	kinds := []string{"equal", "subject", "claims", "ttl"}
+	if npre != 0 {
+		kinds = append(kinds, "outputs", "outputs")
+	}
+
+	c.Kind = rapid.SampledFrom(kinds).Draw(t, "pairKind")
 
 	switch c.Kind {
 	case "equal":
@@ -660,11 +706,16 @@ func genJWTFinalizerCase(t *rapid.T) caseSpec {
 	case "ttl":
 		refB["config"] = map[string]any{"ttl": "10m"}
 		c.Kind, c.Detail = "cross-variant", "ttl override"
+	case "outputs":
+		hdrB = []vkit.HeaderKV{{Name: "X-Pre", Value: "other"}}
+		c.Kind, c.Detail = "one-component", "outputs of the earlier steps"
 	}
 
-	c.ExecA = []config.MechanismConfig{anonRef(subA), refA}
-	c.ExecB = []config.MechanismConfig{anonRef(subB), refB}
-	c.A, c.B = execution{Path: "/a/x"}, execution{Path: "/b/x"}
+	vkit.S.Label(fmt.Sprintf("jwt_finalizer.outputs=%d", npre))
+
+	c.ExecA = append(append([]config.MechanismConfig{anonRef(subA)}, pres...), refA)
+	c.ExecB = append(append([]config.MechanismConfig{anonRef(subB)}, pres...), refB)
+	c.A, c.B = execution{Path: "/a/x"}, execution{Path: "/b/x", Headers: hdrB}
 
 	return c
 }
